@@ -377,6 +377,10 @@ func c12Genesis(g *lcGen, cv protocol.ConsensusVersion) string {
 			bal = p.RewardUnit - 1 // no reward unit at all
 		case 3:
 			bal = p.RewardUnit + uint64(g.r.Intn(2000000))
+		case 4, 5, 6, 7:
+			// just below a reward-unit boundary: a few rounds of pending rewards carry the balance across it, so a touch that only
+			// folds the pending rewards into the balance changes the account's reward units without changing its money
+			bal = uint64(2+g.r.Intn(300))*p.RewardUnit - g.pick(1, 1, 7, 100, 999, uint64(1+g.r.Intn(5000)))
 		default:
 			bal = uint64(5+g.r.Intn(300)) * 1000000
 		}
@@ -411,6 +415,42 @@ func c12Genesis(g *lcGen, cv protocol.ConsensusVersion) string {
 	}
 	fmt.Fprintf(&sb, " A%d=%d,%d,0,0,0,0,0,0,0,0,0,0,0,0,0", lcPool, pst, pool)
 	return sb.String()
+}
+
+// c12Touches: zero-net touches (the account's holdings with pending rewards are unchanged by the block) of participating accounts,
+// preferably of those whose pending rewards have carried them across a reward-unit boundary: receiver of a 0-amount payment,
+// or fee-pooled 0-fee sender of a 0-amount payment to itself.
+func c12Touches(g *lcGen, v *lcView) []string {
+	var out []string
+	for id := uint64(1); id <= 6; id++ {
+		d := v.acct[id]
+		if d.Status == basics.NotParticipating || d.MicroAlgos.Raw == 0 || g.unit == 0 {
+			continue
+		}
+		crosses := g.balWP(d)/g.unit != d.MicroAlgos.Raw/g.unit
+		if !(crosses && g.r.Chance(55)) && !g.r.Chance(4) {
+			continue
+		}
+		payer := uint64(0)
+		for k := uint64(0); k < 6; k++ {
+			c := 1 + (id+k)%6
+			if c != id && g.balWP(v.acct[c]) >= g.minBal+4*g.minFee {
+				payer = c
+				break
+			}
+		}
+		if payer == 0 {
+			continue
+		}
+		g.nonce += 2
+		if g.r.Chance(50) {
+			out = append(out, fmt.Sprintf("group pay,%d,%d,%d,%d,%d,0,%d,0,0", payer, g.minFee, g.round, g.round+10, g.nonce, id))
+		} else if d.MicroAlgos.Raw >= g.minBal {
+			out = append(out, fmt.Sprintf("group pay,%d,%d,%d,%d,%d,1,%d,0,0;pay,%d,0,%d,%d,%d,1,%d,0,0",
+				payer, 2*g.minFee, g.round, g.round+10, g.nonce, g.pick(id, payer), id, g.round, g.round+10, g.nonce+1, id))
+		}
+	}
+	return out
 }
 
 func c12GenTxn(g *lcGen, v *lcView) string {
@@ -491,8 +531,19 @@ func TestVerifC12(t *testing.T) {
 			if g.r.Chance(10) {
 				ngroups = 0 // an empty block: rewards only
 			}
-			for i := 0; i < ngroups && !dead() && h.lc.ev != nil; i++ {
-				run(c12GenGroup(g, h.lc.view()))
+			touchAt := g.r.Intn(ngroups + 1) // the zero-net touches go before, between or after the random groups
+			for i := 0; i <= ngroups && !dead() && h.lc.ev != nil; i++ {
+				if i == touchAt {
+					for _, op := range c12Touches(g, h.lc.view()) {
+						if dead() || h.lc.ev == nil {
+							break
+						}
+						run(op)
+					}
+				}
+				if i < ngroups && !dead() && h.lc.ev != nil {
+					run(c12GenGroup(g, h.lc.view()))
+				}
 			}
 			if dead() || h.lc.ev == nil {
 				break
